@@ -32,7 +32,8 @@ META = {
 }
 
 COQ_FILES = ["C10/GenAlloc.v", "C10/Layout.v", "C10/Alloc.v", "C10/Paths.v", "C10/AllocProofs.v",
-             "C10/OverrideProofs.v", "C10/AddrTemplates.v", "C10/VAddrTemplates.v", "C10/VAddrPath.v", "C10/VMapTemplates.v", "C10/RoundTrip.v", "C10/PropsC10.v"]
+             "C10/OverrideProofs.v", "C10/AddrTemplates.v", "C10/VAddrTemplates.v", "C10/VAddrPath.v", "C10/VMapTemplates.v", "C10/RoundTrip.v", "C10/PropsC10.v",
+             "C10/VFull.v", "C10/PropsC10V.v"]   # session-3 extension: whole venom accesses (key chains of any kinds + paths)
 IMPORTS = "From Verif Require Import Base.PyInt C10.GenAlloc C10.Layout C10.Alloc.\nOpen Scope string_scope.\nOpen Scope Z_scope.\n"
 TWO256 = 2**256
 MAXES = {"storage": 2**256, "transient": 2**256, "code": 0x6000}
@@ -655,6 +656,18 @@ def run(ctx):
     n4, f4 = c10_addr.run(ctx, model_ok and addr_ok, 240 if quick else 2000)
     total += n4
     found |= f4
+    # session-3 extension: whole venom accesses (HashMap levels over the whole key-type family + array/struct steps)
+    from vlib import c10_vfull
+    vfull_ok = gen_err is None and (COQ / "C10" / "VFull.vo").exists() and \
+        (b["ok"] or not any(x in str(b.get("file", "")) for x in ("VFull", "VAddrPath", "VMapTemplates", "VAddrTemplates", "AddrTemplates", "Layout.v", "Paths.v")))
+    try:
+        n6, f6 = c10_vfull.run(ctx, model_ok and vfull_ok, 100 if quick else 1200)
+    except c10_vfull.ExportError as e:
+        ctx.violation("correspondence-broken", "venom whole-access tie (VFull.vfull): the real lowering cannot be exported: " + str(e)[:300],
+                      {"error": str(e)[:1000], "theorem": "venom_access_matches_layout"})
+        n6, f6 = 0, True
+    total += n6
+    found |= f6
     if gen_err is not None or not b["ok"]:
         if not found:
             found = search_small(ctx)
@@ -667,7 +680,8 @@ def run(ctx):
     ctx.corr["evaluations"] = total
     ctx.corr["distinct_nontrivial"] = total
     ctx.corr["rule"] = ("distinct (declaration tree, evm) layouts + distinct (tree, evm, override file) + distinct (contract, config, "
-                        "write operation) storage diffs + distinct (contract, config, HashMap write through a key expression) diffs; all non-trivial (every case has >= 1 state variable)")
+                        "write operation) storage diffs + distinct (contract, config, HashMap write through a key expression) diffs + distinct address-template matches "
+                        "(legacy paths; venom whole accesses = (key types, value type, path, location)); all non-trivial (every case has >= 1 state variable / access step)")
     ctx.trusted += ["Coq 8.16.1 kernel + vm_compute",
                     "tools/vlib/py2coq.py + tools/vlib/c10_gen.py MethodTranslator (allocate_slot, ceil32, storage_size_in_words regenerated each run)",
                     "hand model coq/C10/Alloc.v of _allocate_layout_r/_allocate_with_overrides_r/export recursion and coq/C10/Layout.v of type sizes "
